@@ -7,7 +7,10 @@ import (
 	"encoding/binary"
 	"fmt"
 	iofs "io/fs"
+	"os"
 	"sort"
+	"strconv"
+	"strings"
 	"testing"
 
 	"github.com/diskfs/go-diskfs/filesystem/squashfs"
@@ -55,9 +58,31 @@ func genC07(t *rapid.T) any {
 		o.maxFile = 3 << 20
 	}
 	c.Tree = sqSafeTree("C07", dedupeTree(genTree(t, o)))
+	if rapid.IntRange(0, 11).Draw(t, "flatMany") == 0 {
+		// hundreds of files in the root directory, each with a tail of more than half a block: more than 512
+		// fragment blocks (the fragment table needs a second metadata block), an inode table and a root listing
+		// of several metadata blocks. No subdirectories, so the tree stays outside KF-SQ-DIRTABLE.
+		c.Tree = nil
+		nf := rapid.SampledFrom([]int{300, 520, 700}).Draw(t, "flatN")
+		for i := 0; i < nf; i++ {
+			sz := unit/2 + 1 + (i*37)%(unit/2-1)
+			if i%9 == 0 {
+				sz += unit * (1 + i%3)
+			}
+			c.Tree = append(c.Tree, mk.Entry{Path: fmt.Sprintf("f%04d", i), Kind: mk.KFile, Data: mk.Content{Seed: uint32(i + 1), Len: sz, Style: []int{0, 2, 3}[i%3]}})
+		}
+		if rapid.Bool().Draw(t, "flatLink") {
+			c.Tree = append(c.Tree, mk.Entry{Path: "a-link", Kind: mk.KLink, Target: strings.Repeat("t", rapid.IntRange(1, 140).Draw(t, "flatLinkLen"))})
+		}
+	}
+	flat := len(c.Tree) >= 300
 	n := rapid.IntRange(1, 2).Draw(t, "variants")
 	for i := 0; i < n; i++ {
 		c.Vars = append(c.Vars, genSqVariant(t))
+	}
+	if flat {
+		c.Vars = c.Vars[:1]
+		c.Vars[0].BS = int64(unit) // one tail per fragment block
 	}
 	payload := int64(0)
 	for _, e := range c.Tree {
@@ -379,6 +404,70 @@ func init() {
 
 func TestC07(t *testing.T) { hx.RunProp(t, "C07") }
 
+// TestC07Slide enumerates the alignment of inodes against the 8 KiB metadata-block boundary: a symlink whose
+// target grows byte by byte is the first inode of the table and pushes every following inode along, so that
+// over the sweep every inode layout (basic/extended file with and without block list, symlink, directory)
+// is cut by the boundary at every one of its byte positions.
+func TestC07Slide(t *testing.T) {
+	shard, _ := strconv.Atoi(os.Getenv("VERIF_SHARD_INDEX"))
+	nshard, _ := strconv.Atoi(os.Getenv("VERIF_NSHARDS"))
+	if nshard < 1 {
+		nshard = 1
+	}
+	maxL := 96
+	comps := []string{"none", "gzip"}
+	if hx.Thorough() {
+		maxL = 160
+		comps = []string{"none", "gzip", "zstd"}
+	}
+	idx := -1
+	l, ci := 0, 0
+	hx.RunEnum(t, "C07", func() (any, bool) {
+		for {
+			l++
+			if l > maxL {
+				l = 1
+				ci++
+			}
+			if ci >= len(comps) {
+				return nil, false
+			}
+			idx++
+			if idx%nshard != shard {
+				continue
+			}
+			bs := 4096
+			c := sqCase{Size: 8 << 20, Tail: 0}
+			c.Tree = append(c.Tree, mk.Entry{Path: "0-link", Kind: mk.KLink, Target: strings.Repeat("s", l)})
+			for i := 0; i < 170; i++ {
+				var sz int
+				switch i % 5 {
+				case 0:
+					sz = 8*bs + 100 + i // eight full blocks and a tail
+				case 1:
+					sz = 3 * bs // exactly three blocks, no tail
+				case 2:
+					sz = 17 + i
+				case 3:
+					sz = 0
+				default:
+					sz = bs + bs/2
+				}
+				c.Tree = append(c.Tree, mk.Entry{Path: fmt.Sprintf("f%03d", i), Kind: mk.KFile, Data: mk.Content{Seed: uint32(i + 1), Len: sz, Style: []int{0, 1, 2}[i%3]}})
+				if i%40 == 7 {
+					c.Tree = append(c.Tree, mk.Entry{Path: fmt.Sprintf("l%03d", i), Kind: mk.KLink, Target: fmt.Sprintf("f%03d", i)})
+				}
+			}
+			o := mk.SqOpts{Comp: comps[ci]}
+			if o.Comp == "gzip" {
+				o.Level = 6
+			}
+			c.Vars = []sqVariant{{BS: int64(bs), Opts: o, Cache: -1}}
+			return c, true
+		}
+	})
+}
+
 // sqDirTableBytes estimates the size of the squashfs directory table for a tree.
 func sqDirTableBytes(es []mk.Entry) int {
 	n := 12
@@ -400,9 +489,57 @@ func pathBase(p string) string {
 	return p
 }
 
+// sqDirStartsOK reports whether every directory listing of the tree starts inside the first metadata block
+// of the directory table. The library lays the listings out in pre-order (a directory, then its
+// subdirectories in name order), and KF-SQ-DIRTABLE only breaks directories whose listing *starts*
+// in a later block, so a table longer than 8 KiB is fine as long as the long listing comes last.
+// Sizes are upper bounds (every entry is charged its own share of a header).
+func sqDirStartsOK(es []mk.Entry) bool {
+	children := map[string][]mk.Entry{}
+	for _, e := range es {
+		d := ""
+		if i := lastSlash(e.Path); i >= 0 {
+			d = e.Path[:i]
+		}
+		children[d] = append(children[d], e)
+	}
+	pos := 0
+	ok := true
+	var rec func(dir string)
+	rec = func(dir string) {
+		if pos > 7600 {
+			ok = false
+		}
+		kids := children[dir]
+		sort.Slice(kids, func(i, j int) bool { return kids[i].Path < kids[j].Path })
+		n := 12
+		for _, k := range kids {
+			n += 8 + len(pathBase(k.Path)) + 2
+		}
+		n += 12 * (len(kids)/32 + 1)
+		pos += n
+		for _, k := range kids {
+			if k.Kind == mk.KDir {
+				rec(k.Path)
+			}
+		}
+	}
+	rec("")
+	return ok
+}
+
+func lastSlash(p string) int {
+	for i := len(p) - 1; i >= 0; i-- {
+		if p[i] == '/' {
+			return i
+		}
+	}
+	return -1
+}
+
 // sqSafeTree trims a tree out of the region of known finding KF-SQ-DIRTABLE while it is active.
 func sqSafeTree(prop string, es []mk.Entry) []mk.Entry {
-	if !hx.Active("KF-SQ-DIRTABLE") || sqDirTableBytes(es) <= 6500 {
+	if !hx.Active("KF-SQ-DIRTABLE") || sqDirTableBytes(es) <= 6500 || sqDirStartsOK(es) {
 		return es
 	}
 	hx.Excluded(prop, "KF-SQ-DIRTABLE")
